@@ -62,6 +62,7 @@ type Options struct {
 	Referrers   bool // generate referrers of closure nodes
 	DigestTags  bool // generate digest tags (sha256-<hex>.suffix)
 	Sha512      bool // allow sha512 descriptors
+	Contention  bool // bias towards graphs whose parts share content: nested indexes with >=2 entries, blobs and child manifests reused with probability 3/4 and 1/2
 	NoMediaType bool // allow bodies without mediaType field
 	ExtraTags   bool // extra tags on nodes
 	ExtHost     string
@@ -120,7 +121,11 @@ func (gn *gen) newBlobData(label string) []byte {
 
 // layerBlob returns a new or reused blob digest.
 func (gn *gen) layerBlob(label string) string {
-	if len(gn.pool) > 0 && rapid.IntRange(0, 3).Draw(gn.t, label+"_reuse") == 0 {
+	reuse := 3
+	if gn.opt.Contention {
+		reuse = 0 // IntRange(0, 3) != 0: 3/4
+	}
+	if len(gn.pool) > 0 && (rapid.IntRange(0, 3).Draw(gn.t, label+"_reuse") == 0) != (reuse == 0) {
 		gn.label("shared-blob")
 		return rapid.SampledFrom(gn.pool).Draw(gn.t, label+"_pick")
 	}
@@ -437,7 +442,11 @@ func (gn *gen) index(label string, depth int) int {
 		gn.label("docker-list")
 	}
 	n := &Node{Kind: "index", MediaType: mt}
-	ne := rapid.IntRange(0, gn.opt.MaxEntries).Draw(t, label+"_ne")
+	minE := 0
+	if gn.opt.Contention {
+		minE = min(2, gn.opt.MaxEntries)
+	}
+	ne := rapid.IntRange(minE, gn.opt.MaxEntries).Draw(t, label+"_ne")
 	entries := []string{}
 	for i := 0; i < ne; i++ {
 		el := fmt.Sprintf("%s_e%d", label, i)
@@ -450,10 +459,14 @@ func (gn *gen) index(label string, depth int) int {
 			continue
 		}
 		var cid int
-		if depth > 1 && !docker && rapid.IntRange(0, 4).Draw(t, el+"_nest") == 0 {
+		nestP, reuseP := 4, 6
+		if gn.opt.Contention {
+			nestP, reuseP = 1, 1
+		}
+		if depth > 1 && !docker && rapid.IntRange(0, nestP).Draw(t, el+"_nest") == 0 {
 			cid = gn.index(el, depth-1)
 			gn.label("nested-index")
-		} else if len(gn.g.Nodes) > 0 && rapid.IntRange(0, 6).Draw(t, el+"_reuse") == 0 {
+		} else if len(gn.g.Nodes) > 0 && rapid.IntRange(0, reuseP).Draw(t, el+"_reuse") == 0 {
 			cid = rapid.IntRange(0, len(gn.g.Nodes)-1).Draw(t, el+"_reusei")
 			if gn.g.Nodes[cid].Subject != "" || (docker && gn.g.Nodes[cid].MediaType != rm.MTDocker2) {
 				cid = gn.image(el, "")
@@ -511,7 +524,7 @@ func Gen(t *rapid.T, opt Options) *Graph {
 		id := gn.image("pre", "")
 		g.Tags["other"] = id
 	}
-	if opt.MaxDepth > 0 && rapid.IntRange(0, 2).Draw(t, "rootkind") != 0 {
+	if opt.MaxDepth > 0 && (opt.Contention || rapid.IntRange(0, 2).Draw(t, "rootkind") != 0) {
 		g.Root = gn.index("root", opt.MaxDepth)
 	} else {
 		g.Root = gn.manifest("root")
@@ -546,7 +559,28 @@ func Gen(t *rapid.T, opt Options) *Graph {
 			if rm.AlgOf(tgt.Digest) != "sha256" {
 				continue // "<alg>-<hex>.suffix" of a sha512 digest exceeds the length of a tag
 			}
-			id := gn.image(fmt.Sprintf("dt%d", i), "")
+			// what the digest tag names: usually an image of its own, sometimes a manifest the same copy also
+			// reaches by digest - a referrer of the target (tools that write both the subject field and the
+			// legacy tag) or one of the target index's own children
+			id := -1
+			switch rapid.IntRange(0, 3).Draw(t, fmt.Sprintf("dtwhat%d", i)) {
+			case 0:
+				for _, n := range g.Nodes {
+					if n.Subject == tgt.Digest {
+						id = n.ID
+						gn.label("digest-tag-names-referrer")
+						break
+					}
+				}
+			case 1:
+				if len(tgt.Children) > 0 {
+					id = tgt.Children[rapid.IntRange(0, len(tgt.Children)-1).Draw(t, fmt.Sprintf("dtchild%d", i))]
+					gn.label("digest-tag-names-own-child")
+				}
+			}
+			if id < 0 {
+				id = gn.image(fmt.Sprintf("dt%d", i), "")
+			}
 			suffix := rapid.SampledFrom([]string{".sig", ".att", ".sbom"}).Draw(t, fmt.Sprintf("dtsuf%d", i))
 			g.Tags[strings.Replace(tgt.Digest, ":", "-", 1)+suffix] = id
 			gn.label("digest-tags")
